@@ -99,16 +99,17 @@ META = {
                     'get attaches it); a table without childName column holds no tag; the keywords of _create come in '
                     'declaration order (a dict is used through lookups only); select / selectBy return exactly the ids the '
                     'model selects (any order); InheritableSQLMeta.addColumn (getter/setter delegation closures built with '
-                    'eval / nested functions) and InheritableIteration (child prefetch) are NOT translated: they stay '
-                    'hand-modelled and tied by the differential correspondence; InheritableSQLObject.selectBy and '
-                    '_findAlternateID ARE translated and proved for all inputs (C15_translated_selectBy_eq_model: the three '
-                    'loops reduce to one call of the translated constructor whose rows are selectByRow; '
-                    'C15_translated_byAlternate_eq_model: one translated selectBy on the class the method is called through = '
-                    'byAltRow; list(select) / SQLObject._SO_fetchAlternateID are interface); InheritableSQLObject.select IS '
-                    'translated with its nested functions _get_patched / _patch_id_clause (in-out parameter: sound when the '
-                    'clause object is not shared) and run on closed witnesses through the class chain and the translated '
-                    'constructor, with one-level lemmas (Lemmas/InhSelXPatch.lean), but not yet proved equal to the hand '
-                    'model for all inputs',
+                    'eval / nested functions) is NOT translated: it stays hand-modelled and tied by the differential '
+                    'correspondence; InheritableSQLObject.selectBy, _findAlternateID and select (with its nested functions '
+                    '_get_patched / _patch_id_clause: in-out parameter, sound when the clause object is not shared) ARE '
+                    'translated and proved for all inputs (C15_translated_selectBy_eq_model, _byAlternate_eq_model, '
+                    '_select_patch_eq, _select_reduces, _select_eq_model for arbitrary clauses under tables/meaning hypotheses, '
+                    '_select_filter_eq_model for filters without an id comparison below NOT; list(select) / '
+                    'SQLObject._SO_fetchAlternateID are interface); InheritableIteration.next and fetchChildren ARE '
+                    'translated; fetchChildren is run against a world with the TWO cursors explicit (Model/InhIterX.lean) on '
+                    'closed witnesses (rows pending on the own cursor survive the prefetch) and its grouping / storing loops '
+                    'are proved for every batch (Lemmas/InhIterX.lean), but the whole iteration is not yet proved equal to the '
+                    'hand model (one get per selected id) for all inputs',
                     'translated InheritableSelectResults.__init__ (C15_translated_selectInit_*): interface in the header of '
                     'Model/InhSelX.lean (tablesUsedSet = the tables of the clause, allClasses() = every class once in any order, '
                     'distinct classes have distinct table names, SelectResults.__init__ selects FROM the tables of the clause '
